@@ -37,25 +37,5 @@ theorem exactQ_laws : Laws (Option Rat) where
   mul_comm := by
     intro x s
     cases x <;> cases s <;> simp [Scalar.mul, qlift, Rat.mul_comm]
-  mul_inv := by
-    intro x s hz
-    cases s with
-    | none => cases x <;> simp [Scalar.mul, Scalar.div, qlift]
-    | some y =>
-      have hy : y ≠ 0 := by intro h; subst h; simp [Scalar.isZero] at hz
-      cases x with
-      | none => simp [Scalar.mul, Scalar.div, qlift]
-      | some a =>
-        simp [Scalar.mul, Scalar.div, Scalar.one, Scalar.ofDec, qlift, hy, Rat.div_def, Rat.one_mul]
-  inv_mul := by
-    intro x s hz
-    cases x with
-    | none => cases s <;> simp [Scalar.mul, Scalar.div, qlift]
-    | some y =>
-      have hy : y ≠ 0 := by intro h; subst h; simp [Scalar.isZero] at hz
-      cases s with
-      | none => simp [Scalar.mul, Scalar.div, Scalar.one, Scalar.ofDec, qlift, hy]
-      | some a =>
-        simp [Scalar.mul, Scalar.div, Scalar.one, Scalar.ofDec, qlift, hy, Rat.div_def, Rat.one_mul, Rat.mul_comm]
 
 end TV.Expr
